@@ -7,7 +7,7 @@ From FlacWriters Require Import Params_proofs.
 From FlacReaders Require Readers Spec Ser RNum Seek.
 From FlacWriters Require Import Lists_proofs Writers_proofs.
 From FlacWriters Require Import Bytes_proofs Cross_proofs.
-From FlacE2E Require Import Bridge E2E SampleE2E Success ChannelE2E ByteE2E ByteSuccess ChannelSuccess ReadBridge ReadersE2E InterruptedE2E SeekE2E SeekReadE2E Transfer DecodedFile.
+From FlacE2E Require Import Bridge E2E SampleE2E Success ChannelE2E ByteE2E ByteSuccess ChannelSuccess ReadBridge ReadersE2E InterruptedE2E SeekE2E SeekReadE2E Transfer DecodedFile DamagedFile.
 Import ListNotations.
 Open Scope N_scope.
 
@@ -564,6 +564,28 @@ Theorem C07_decoded_file_is_read : forall file si frames e rp,
       FlacReaders.Spec.exactly_once (concat frames) atr.
 Proof. exact decoded_file_is_read. Qed.
 
+(* C05 + C07 for damaged files — EVERY byte string on which the stream decoder model decodes some frames and then fails
+   (any error): over the abstract stream "the blocks decoded so far, then a frame that fails" (whatever the failed decode
+   left in the frame buffer, whatever follows), what ANY seek-free history of the sample reader model hands out or shows
+   up to and including the first call that reports an error is a gap-free prefix of the samples the decoder had decoded —
+   nothing else is ever delivered —, no call panics, and the failure is reported only when all of them have been handed
+   out or are buffered *)
+Theorem C05_damaged_file_is_read : forall file si frames err,
+  FlacCodec.Stream.dec_stream file = Some (si, frames, FlacCodec.Stream.EndErr err) -> 1 <= FlacCodec.Ast.si_channels si ->
+  exists blocks, frames = map FlacCodec.Stream.interleave_frame blocks /\
+    forall (F : FlacReaders.Readers.file) g rest ops,
+      FlacReaders.Readers.f_slots F = map FlacReaders.Readers.SFrame blocks ++ FlacReaders.Readers.SBad g :: rest ->
+      FlacReaders.Readers.f_channels F = FlacCodec.Ast.si_channels si ->
+      FlacReaders.Spec.sumlen (map FlacReaders.Readers.SFrame blocks) < FlacReaders.RNum.U64 ->
+      FlacReaders.Spec.no_sseek ops -> Forall FlacReaders.Damaged.s_consume_ok (snd (FlacReaders.Seek.sample_run F ops)) ->
+      forall pre x post, snd (FlacReaders.Seek.sample_run F ops) = pre ++ x :: post ->
+        Forall (fun y => FlacReaders.Damaged.failed (snd y) = false) pre ->
+        FlacReaders.Spec.prefix (FlacReaders.Damaged.s_delivered pre ++ FlacReaders.Damaged.s_shown x) (concat frames) /\
+        (forall p, snd x <> FlacReaders.Readers.OPanic p) /\
+        (snd x = FlacReaders.Readers.OErr ECrc16 ->
+           FlacReaders.Damaged.s_delivered pre ++ FlacReaders.Readers.sr_buf (fst (fst x)) = concat frames).
+Proof. exact damaged_file_is_read. Qed.
+
 (* C03 + C07: a file made of ANY valid frame trees — every legal syntactic alternative, not only this encoder's — behind a
    STREAMINFO and any further metadata blocks: the sample reader model delivers the RFC 9639 semantics of the frames,
    exactly once and in order, under every seek-free call history *)
@@ -631,6 +653,7 @@ Print Assumptions C01_written_samples_are_read.
 Print Assumptions C01_sample_writer_lossless.
 Print Assumptions C01_written_metadata_is_read.
 Print Assumptions C01_end_to_end_samples.
+Print Assumptions C05_damaged_file_is_read.
 Print Assumptions C01_end_to_end_encoder.
 Print Assumptions C01_end_to_end_sample_writer.
 
